@@ -78,6 +78,19 @@ for D in (1, 2, 3):
           covers=[' && '.join('g_n%d == %d' % (k, BNDS[D][k]) for k in range(D))],
           assigns=[], **COMMON, tier='quick' if D <= 2 else 'thorough')
 
+    # swap of two views of ONE storage that may share cells only at corresponding index tuples (e.g. row k and column k of a square matrix from
+    # the diagonal on: the pair an in-place transposition swaps); catches seed C05-4 (a "self-swap" shortcut keyed on the base pointer alone)
+    if D <= 2:
+        cross = ' && '.join('IMPLIES(%s && %s, %s != %s)' % (valid(t, D), valid(u, D), off('d', t, D), off('s', u, D)) for t in tuples(D) for u in tuples(D) if t != u)
+        setup1 = ('__CPROVER_assume(%s); ' % bnd + INIT + 'G_next = 2; ' + block_setup(0) + block_setup(1) + view_setup('d', 0, D) + view_setup('s', 0, D) + '__CPROVER_assume(%s); ' % cross + SNAP2 + 'G_may_fail = 0;')
+        Check('V%d_swap_overlap' % D, ['C05', 'C03'], params=['d', 's'], fn='w_V%d_swap' % D, wrapper=None,
+              cxx={'d': VS(D, False), 's': VS(D, False)}, ghosts=G, setup=setup1, requires=[bnd, 'EXC == 0'],
+              ensures=[('corresponding elements (same index tuple) of the two views are exchanged, also when the views start at the same element',
+                        'EXC == 0 && ' + ' && '.join('IMPLIES(%s, G_blk[0].val[%s] == g_va[%s] && G_blk[0].val[%s] == g_va[%s])' % (valid(t, D), off('d', t, D), off('s', t, D), off('s', t, D), off('d', t, D)) for t in tuples(D))),
+                       ('every other element of the storage is untouched', ' && '.join('IMPLIES(!%s && !%s, G_blk[0].val[%d] == g_va[%d])' % (inview('d', p, D), inview('s', p, D), p, p) for p in range(G_ELEMS))),
+                       ('no allocation, nothing released, no element left dead', 'G_nalloc == 0 && G_ndealloc == 0 && %s == 2 && %s == 2*G_ELEMS' % (owned_blocks(), total_live()))],
+              covers=['g_od == g_os && g_n0 > 1 && g_sd0 != g_ss0', 'g_od != g_os && g_n0 > 1'],
+              assigns=[], **COMMON, tier='quick')
 # element_moved(): a view over move pointers with exactly the layout and first element of the source view (moving from it moves from exactly the viewed elements)
 Group('views', ['boost/multi/array.hpp'], prelude="""
 template<multi::dimensionality_type D> using MSd = multi::subarray<double, D, double*>;
